@@ -106,6 +106,9 @@ func (r *resolver) module(y *Module) error {
 				if err != nil {
 					return fmt.Errorf("%s - %s", i.moduleName, err)
 				}
+				// the resource may hold a module of another name, remember it under
+				// the name asked for as well or it is never found as loaded
+				r.loadedModules[i.moduleName] = i.module
 				// recurse
 				if err = r.module(i.module); err != nil {
 					return err
